@@ -36,6 +36,10 @@ def main():
                 result['reach'] = reach.result()
         for e in monitor.ERRORS:
             ctx.note_inconclusive(e)
+        sh = sys.modules.get('pysat.solvers')
+        if sh is not None and getattr(sh, 'STATS', None) and sh.STATS.get('solve'):
+            for k in ('solve', 'sat', 'unsat', 'unsat_rechecked', 'cap_hits'):
+                ctx.count('solver_shim:' + k, sh.STATS.get(k, 0))
         result.update(ctx.dump())
         result['status'] = 'ok'
     except BaseException as e:  # harness failure -> inconclusive, never a verdict
